@@ -628,11 +628,11 @@ fn error_run(prop: &str, run: usize, seed: u64) -> Vec<J> {
         _ => {
             // inside a row entry of an input column
             let c = entries.iter().position(|e| matches!(e, Entry::Num(_) | Entry::Expr(_))).unwrap_or(0);
-            if matches!(entries[c], Entry::Num(_) | Entry::Expr(_)) {
-                entries[c] = Entry::Expr(wrapped);
-            } else {
-                entries[c] = Entry::Expr(wrapped);
-            }
+            // (a bits() group keeps its width)
+            entries[c] = match &entries[c] {
+                Entry::Bits(n, _) => Entry::Bits(*n, wrapped),
+                _ => Entry::Expr(wrapped),
+            };
             Stmt::Row { id, entries: entries.clone() }
         }
     };
